@@ -28,8 +28,7 @@ theorem scalarLoop_eq (f : Int → Int) (c i : Nat) (l : List Int) :
   | zero =>
     apply List.ext_getElem?; intro j
     simp only [scalarLoop, List.getElem?_mapIdx]
-    cases l[j]? <;> simp
-    intro h1 h2; omega
+    cases l[j]? <;> simp <;> (intro h1 h2; omega)
   | succ c ih =>
     show scalarLoop f c (i + 1) (setAt l i f) = _
     rw [ih]
@@ -56,8 +55,7 @@ theorem sseBlocks_eq (g : Int) (b i : Nat) (l : List Int) :
   | zero =>
     apply List.ext_getElem?; intro j
     simp only [sseBlocks, List.getElem?_mapIdx]
-    cases l[j]? <;> simp
-    intro h1 h2; omega
+    cases l[j]? <;> simp <;> (intro h1 h2; omega)
   | succ b ih =>
     show sseBlocks g b (i + 4) (sseBlock g l i) = _
     rw [ih]
@@ -70,24 +68,24 @@ theorem sseBlocks_eq (g : Int) (b i : Nat) (l : List Int) :
       by_cases h0 : j = i
       · have h2 : ¬ (i + 4 ≤ j ∧ j < i + 4 + 4 * b) := by omega
         have h3 : i ≤ j ∧ j < i + 4 * (b + 1) := by omega
-        simp [h0, h2, h3]
+        simp [h0, h2, h3] <;> (intro h; omega)
       · by_cases h1 : j = i + 1
         · have h2 : ¬ (i + 4 ≤ j ∧ j < i + 4 + 4 * b) := by omega
           have h3 : i ≤ j ∧ j < i + 4 * (b + 1) := by omega
-          simp [h0, h1, h2, h3]
+          simp [h0, h1, h2, h3] <;> (intro h; omega)
         · by_cases h1' : j = i + 2
           · have h2 : ¬ (i + 4 ≤ j ∧ j < i + 4 + 4 * b) := by omega
             have h3 : i ≤ j ∧ j < i + 4 * (b + 1) := by omega
-            simp [h0, h1, h1', h2, h3]
+            simp [h0, h1, h1', h2, h3] <;> (intro h; omega)
           · by_cases h1'' : j = i + 3
             · have h2 : ¬ (i + 4 ≤ j ∧ j < i + 4 + 4 * b) := by omega
               have h3 : i ≤ j ∧ j < i + 4 * (b + 1) := by omega
-              simp [h0, h1, h1', h1'', h2, h3]
+              simp [h0, h1, h1', h1'', h2, h3] <;> (intro h; omega)
             · by_cases h2 : i + 4 ≤ j ∧ j < i + 4 + 4 * b
               · have h3 : i ≤ j ∧ j < i + 4 * (b + 1) := by omega
-                simp [h0, h1, h1', h1'', h2, h3]
+                simp [h0, h1, h1', h1'', h2, h3] <;> (intro h; omega)
               · have h3 : ¬ (i ≤ j ∧ j < i + 4 * (b + 1)) := by omega
-                simp [h0, h1, h1', h1'', h2, h3]
+                simp [h0, h1, h1', h1'', h2, h3] <;> (intro h; omega)
 
 /-- blocks of four + scalar tail = the portable loop, for every range (also empty and shorter than four). -/
 theorem vecSmulwwSse_eq : vecSmulwwSse = vecSmulwwC := by
